@@ -54,10 +54,36 @@ func loadRegistry() *registry {
 					continue
 				}
 			}
+			if _, ok := storeForm(it, c); !ok {
+				continue // neither T nor *T can be stored in the interface (cannot happen for an implementer)
+			}
 			r.impl[it] = append(r.impl[it], c)
 		}
 	}
 	return r
+}
+
+// decoderForm is the type the DECODER constructs for a registered concrete type (libs/ser cdc.go
+// constructConcreteType): *T when the type was registered through a pointer, T otherwise.
+func decoderForm(c concrete) reflect.Type {
+	if c.PointerPreferred {
+		return reflect.PtrTo(c.Type)
+	}
+	return c.Type
+}
+
+// storeForm decides, with reflect and BEFORE any Set, in which form a value of c can be stored in interface type it:
+// the decoder's form when that is assignable, otherwise the other one (usePtr reports whether it is *T).
+func storeForm(it reflect.Type, c concrete) (usePtr bool, ok bool) {
+	switch {
+	case decoderForm(c).AssignableTo(it):
+		return c.PointerPreferred, true
+	case reflect.PtrTo(c.Type).AssignableTo(it):
+		return true, true
+	case c.Type.AssignableTo(it):
+		return false, true
+	}
+	return false, false
 }
 
 func (r *registry) implementers(t reflect.Type) []concrete { return r.impl[t] }
